@@ -236,6 +236,13 @@ func (b *WB) verify(m *Model, o VerifyOpts) error {
 	if used := w.Stats().Entities.Used; used != m.NAlive {
 		return fmt.Errorf("%s: Stats().Entities.Used=%d, creations-removals=%d", b.Name, used, m.NAlive)
 	}
+	size := 0
+	for i := range w.Stats().Nodes {
+		size += w.Stats().Nodes[i].Size
+	}
+	if size != m.NAlive {
+		return fmt.Errorf("%s: Stats().Nodes sizes add up to %d, Entities.Used says %d alive", b.Name, size, m.NAlive)
+	}
 	ids := map[uint32]bool{}
 	for ord := range m.Ents {
 		e := &m.Ents[ord]
